@@ -136,3 +136,105 @@ Definition mon_C19_cfg (x o : sx) : sx :=
   if sx_bool (sx_nth 6 x) && negb (sx_eqb (proj_cfg_doc o1) (proj_cfg_doc o2))
   then verdict false "the YAML and the JSON spelling of one configuration are not handled identically"
   else v_ok.
+
+(* ---------- the "reload" family ---------- *)
+(* case = L [A "reload"; L docs; L probes; L bad destinations; size table; L cache ids; plan; A origin host]
+   doc = L [A "missing"] | L [A "text"; A text; tree]
+   observation per step = L [A "alive"; I status; A path the origin was asked for; L caches in force] | L [A "dead"] *)
+Definition rl_fetch (d : sx) : option fetched :=
+  if str_eqb (sx_str (sx_nth 0 d)) (bytes "missing") then None
+  else Some (mkFetched (sx_str (sx_nth 1 d)) (doc_tree (sx_nth 2 d))).
+
+Definition url_path (u : str) : str :=
+  match index u (bytes "://") with
+  | Some i => let rest := skipn (i + 3) u in
+              match index rest (bytes "/") with
+              | Some j => skipn j rest
+              | None => []
+              end
+  | None => u
+  end.
+
+Definition strip_query (p : str) : str :=
+  match index p (bytes "?") with Some i => firstn i p | None => p end.
+
+Definition rl_observe (st : rstate) (probe : sx) (ids : list str) (origin : str) : sx :=
+  let q := dec_req probe in
+  let sc := [(origin, [BResp (mkResp 200 [(bytes "Content-Type", [bytes "text/plain"])] (bytes "origin"))])] in
+  let o := serve_nocache 6 (mkCfg None 0) (rs_rules st) q sc in
+  let asked := match so_log o with d :: _ => strip_query (url_path (d_url d)) | [] => bytes "?" end in
+  let have := filter (fun id => existsb (fun c => str_eqb (sc_id c) id) (rs_caches st)
+                                && existsb (fun r => str_eqb (r_cache r) id) (rs_rules st)) ids in
+  L [A (bytes "alive"); I (cl_status (so_client o)); A asked; of_strs (sort_strs have)].
+
+Fixpoint rl_steps (dest_ok : str -> bool) (size_of : str -> option Z) (st : rstate) (docs : list sx)
+         (probe : sx) (ids : list str) (origin : str) : list sx :=
+  match docs with
+  | [] => []
+  | d :: rest =>
+    let st' := reload dest_ok size_of st (rl_fetch d) in
+    rl_observe st' probe ids origin :: rl_steps dest_ok size_of st' rest probe ids origin
+  end.
+
+Definition run_reload (x : sx) : sx :=
+  let docs := sx_list (sx_nth 1 x) in
+  let probe := sx_nth 0 (sx_nth 2 x) in
+  let bad := to_strs (sx_nth 3 x) in
+  let dest_ok s := negb (str_in bad s) in
+  let size_of := size_table (sx_nth 4 x) in
+  let ids := to_strs (sx_nth 5 x) in
+  let origin := sx_str (sx_nth 7 x) in
+  match docs with
+  | d0 :: rest =>
+    match rl_fetch d0 with
+    | Some f =>
+      match start dest_ok size_of f with
+      | Some st => L (rl_observe st probe ids origin :: rl_steps dest_ok size_of st rest probe ids origin)
+      | None => L [A (bytes "start-rejected")]
+      end
+    | None => L [A (bytes "start-rejected")]
+    end
+  | [] => L []
+  end.
+
+(* C19 on a reload sequence, stated without the reload function: after every step the server is
+   alive and serves exactly the last document of the sequence so far that is acceptable as a whole
+   (rules and caches), as a fresh start on that document would *)
+Fixpoint last_good (dest_ok : str -> bool) (size_of : str -> option Z) (docs : list sx) (cur : option rstate) : option rstate :=
+  match docs with
+  | [] => cur
+  | d :: rest =>
+    let cur' := match rl_fetch d with
+                | Some f => match start dest_ok size_of f with Some st => Some st | None => cur end
+                | None => cur
+                end in
+    last_good dest_ok size_of rest cur'
+  end.
+
+Fixpoint walk_reload (dest_ok : str -> bool) (size_of : str -> option Z) (seen : list sx) (todo : list sx) (obs : list sx)
+         (probe : sx) (ids : list str) (origin : str) (i : nat) : sx :=
+  match todo, obs with
+  | d :: todo', o :: obs' =>
+    let seen' := seen ++ [d] in
+    if str_eqb (sx_str (sx_nth 0 o)) (bytes "dead")
+    then at_request (verdict false "the server died on a reload") i
+    else match last_good dest_ok size_of seen' None with
+         | None => at_request (verdict false "no acceptable document so far, yet the server runs") i
+         | Some st =>
+           if sx_eqb o (rl_observe st probe ids origin) then walk_reload dest_ok size_of seen' todo' obs' probe ids origin (S i)
+           else at_request (verdict false "after this reload the server does not serve the last acceptable configuration as a whole (rules and caches)") i
+         end
+  | _, _ => v_ok
+  end.
+
+Definition mon_C19_reload (x o : sx) : sx :=
+  let bad := to_strs (sx_nth 3 x) in
+  walk_reload (fun s => negb (str_in bad s)) (size_table (sx_nth 4 x)) [] (sx_list (sx_nth 1 x)) (sx_list o)
+              (sx_nth 0 (sx_nth 2 x)) (to_strs (sx_nth 5 x)) (sx_str (sx_nth 7 x)) 0.
+
+(* ---------- the "swap" family: requests while SetRules flips between two rule sets ---------- *)
+(* case = L [A "swap"; I n]; observation = L [I requests answered; I requests handled under two versions] *)
+Definition run_swap (x : sx) : sx := L [I (8 * sx_int (sx_nth 1 x)); I 0].
+Definition mon_C19_swap (x o : sx) : sx :=
+  if Z.eqb (sx_int (sx_nth 1 o)) 0 then v_ok
+  else verdict false "a request was handled under two versions of the rules (flavours of one, destination of the other)".
